@@ -73,9 +73,12 @@ def declOf? : Sexp → Option (DeclD × Options.DeclSpans)
   | .list [.atom "decl", .str id, .str vis, .list (.atom "generics" :: tps :: .str gt :: .str wt :: rest), .list attrs, body, ilo, ihi] => do
       let (b, spans) ← bodyOf? body
       let params ← match rest with
-        | [.list (.atom "params" :: ps)] => ps.mapM gparamOf?
+        | .list (.atom "params" :: ps) :: _ => ps.mapM gparamOf?
         | _ => some []
-      pure ({ ident := id, vis, generics := { typeParams := ← strs? tps, toks := gt, whereToks := wt, params },
+      let hasWhere := match rest with
+        | [_, .list [.atom "haswhere", b]] => (b.asBool?).getD (!wt.isEmpty)
+        | _ => !wt.isEmpty
+      pure ({ ident := id, vis, generics := { typeParams := ← strs? tps, toks := gt, whereToks := wt, hasWhere, params },
               attrs := ← attrs.mapM attrOf?, body := b },
             { ident := ← mkSpan? ilo ihi, variantIdents := spans })
   | _ => none
